@@ -19,6 +19,10 @@ def _assigns_local(func: FuncInfo, name: str):
 
 def _find(prog: Program, module: str, table: str, what: str, prefer: str) -> FuncInfo:
     cands = [f for f in prog.all_functions() if f.module.name == module and _assigns_local(f, table)]
+    if not cands and prefer in prog.functions:
+        # the table was renamed / moved: the function of that name is still the anchor
+        from .flatten import flat
+        return flat(prog, prog.functions[prefer])
     if not cands:
         raise AnalysisError(f"anchor not found: the function in valida/{module}.py that builds the local table {table} ({what})")
     from .flatten import flat
@@ -54,3 +58,24 @@ def condition_writer(prog: Program) -> FuncInfo:
 def tree_builder(prog: Program) -> FuncInfo:
     """The function assembling the documentation tree (normally Schema.to_tree)."""
     return _find(prog, "schema", "IMP_TYPE_LOOKUP", "documentation tree builder", "schema.Schema.to_tree")
+
+
+def filter_hook_name(prog: Program) -> str:
+    """Name of the per-class hook `ConditionLike.filter` dispatches to (normally `_filter`)."""
+    f = prog.func("conditions.ConditionLike.filter")
+    for n in ast.walk(f.node):
+        if isinstance(n, ast.Return) and isinstance(n.value, ast.Call) and isinstance(n.value.func, ast.Attribute) \
+                and isinstance(n.value.func.value, ast.Name) and n.value.func.value.id == "self":
+            return n.value.func.attr
+    raise AnalysisError("anchor not found: the hook method ConditionLike.filter returns through (`return self.<hook>(...)`)")
+
+
+def filter_impl(prog: Program, cls_qualname: str) -> FuncInfo:
+    """The class's own implementation of the filter hook, flattened."""
+    from .flatten import flat
+    name = filter_hook_name(prog)
+    c = prog.cls(cls_qualname)
+    m = c.methods.get(name)
+    if m is None:
+        raise AnalysisError(f"anchor not found: {cls_qualname}.{name} (the filter hook implementation)")
+    return flat(prog, m)
